@@ -90,8 +90,11 @@ def run(ctx):
                     ctx.violation(dict(sig0, kind="weights-sum"), "weights sum to %r, domain length %r (space %s)" % (float(np.sum(q)), length, sp.key()),
                                   {"space": sp.key(), "periodic": periodic, "map": [a, h], "weights": q.tolist()})
                 dxi = [float(xi[k + 1] - xi[k]) for k in range(len(xi) - 1)] + ([float(xi[0] + (sp.br[-1] - sp.br[0]) - xi[-1])] if periodic else [])
-                pts_uniform = len(dxi) < 2 or max(abs(d - dxi[0]) for d in dxi) <= 1e-10      # (not after 15-decimal rounding on a tiny domain)
-                if periodic and sp.uniform and pts_uniform and not np.max(np.abs(q - q[0])) <= tol:
+                # the clause is judged on every uniform periodic space; the only excuse is the library's 15-decimal rounding of the
+                # interpolation points, which is visible on a tiny domain only (spacings differing by a few 1e-15 absolute)
+                spread = max(abs(d - dxi[0]) for d in dxi) if len(dxi) >= 2 else 0.0
+                rounded_only = 1e-10 < spread <= 4e-15 / h      # (xi are in cell units)
+                if periodic and sp.uniform and not rounded_only and not np.max(np.abs(q - q[0])) <= tol:
                     ctx.violation(dict(sig0, kind="weights-not-equal"), "uniform periodic space: weights %s are not all equal" % q.tolist(),
                                   {"space": sp.key(), "weights": q.tolist()})
                 # the defining statement on random data: q.u = integral of the interpolant of u
